@@ -6,7 +6,7 @@ from ..oracles import cmark, htmlnorm, rules_ref
 from ..runner import Run
 from .c07 import CRASH_RE
 
-PLAN = {"B2/53": 360, "B3/89": 200, "B4/83": 100, "N1/11": 480, "W1/2": 400, "S2": 280, "S3": 60, "I4/97": 100, "H4": 480, "P2": 360, "R2/3": 240, "R3": 120, "T4/3": 160, "Z1": 360, "Q2": 280, "P3": 240, "E1/211": 200, "M3/5": 120, "L6": 160, "G2": 160, "H6": 198, "U2": 160, "L7/3": 160}
+PLAN = {"B2/53": 486, "B3/89": 270, "B4/83": 135, "N1/11": 648, "W1/2": 540, "S2": 378, "S3": 81, "I4/97": 135, "H4": 648, "P2": 486, "R2/3": 324, "R3": 162, "T4/3": 216, "Z1": 486, "Q2": 378, "P3": 324, "E1/211": 270, "M3/5": 162, "L6": 216, "G2": 216, "H6": 266, "U2": 216, "L7/3": 216}
 EVALUATOR = "vp.props.c06:ev"
 RULE = (
     "documents = sub-lattices of the bounded universes on which C03's oracle holds (the independent parser agrees on the block structure), without pragmas / front matter / CR; "
